@@ -62,7 +62,7 @@ def cases(rng, tier):
                 p = {"lens": lens, "kind": kind, "side": side, "uf": uf, "dta": dta, "dtb": dtb, "vseed": rng.randint(0, 999),
                      # the ragged operand(s) are sometimes the RESULT of an earlier, value-preserving operation (a ufunc, a selection
                      # of all rows, a same-dtype astype): a derived array must behave - and refuse - like a freshly built one
-                     "derived": rng.choice([None, None, "ufunc", "select", "astype"]),
+                     "derived": rng.choice([None, None, "ufunc", "select", "astype", "reduced"]),
                      # operand values: small, or rare (NaN, infinities, -0.0, 1e16 next to 1.0, dtype extremes) with repeats
                      "vmode": "rare" if rng.random() < 0.3 else "small"}
                 if kind == "ragged_bad":
@@ -71,6 +71,11 @@ def cases(rng, tier):
                     other = list(lens); j = rng.randrange(n); other[j] += 1
                     if n > 1 and other[(j + 1) % n] > 0 and rng.random() < 0.7:
                         other[(j + 1) % n] -= 1
+                    if rng.random() < 0.25:
+                        # an operand with ONE cell in all (numpy would broadcast it): same row count, all rows but one empty
+                        one = [0] * n; one[rng.choice([n - 1, n - 1, rng.randrange(n)])] = 1
+                        if one != list(lens):
+                            other = one
                     p["other"] = other
                 if kind == "column_bad":
                     p["ncol"] = n + rng.choice([1, 2]) if n != 0 else 2
@@ -137,6 +142,11 @@ def _derive(ra, how):
         return ra[:]
     if how == "astype":
         return ra.astype(ra.dtype)
+    if how == "reduced":        # the same array after read-only reductions: nothing may have changed
+        with np.errstate(all="ignore"), warnings.catch_warnings():
+            warnings.simplefilter("ignore")
+            ra.sum(axis=-1); ra.any(axis=-1); ra.mean(axis=-1); ra.all(axis=-1)
+        return ra
     return ra
 
 
